@@ -59,20 +59,24 @@ def run(seed_dir, ids):
         sh('git -C %s checkout -- evidence' % VERIF)
     json.dump(meta, open(meta_p, 'w'), indent=1)
 
-if __name__ == '__main__':
-    if sys.argv[1] == 'confirm':
-        print(json.dumps(confirm(sys.argv[2], sys.argv[3]), indent=1))
-    else:
-        run(sys.argv[2], sys.argv[3:])
-
 def store(out, wt, pid, k):
     res = confirm(out, wt)
     ok = all(res[x] for x in ['patch_applies', 'tests_pass_with_change', 'demo_fails_with_change', 'demo_passes_without_change'])
     if not ok: print(pid, k, 'NOT confirmed', res); return
     d = os.path.join(VERIF, 'seeded', '%s-m%s' % (pid, k)); os.makedirs(d, exist_ok=True)
     shutil.copy(out + '/patch.diff', d)
-    for f in glob.glob(out + '/demo.*'): shutil.copy(f, d)
+    for f in glob.glob(out + '/*'):
+        if os.path.isfile(f) and os.path.basename(f) not in ('patch.diff', 'meta.json') and os.path.getsize(f) < 200000 and not os.access(f, os.X_OK): shutil.copy(f, d)
     m = json.load(open(out + '/meta.json')); m['property'] = pid
     m['confirmed'] = {'by': 'tools/seedtest.py confirm (scratch worktree, repo ctest + demo with and without the change)', **res}
     json.dump(m, open(d + '/meta.json', 'w'), indent=1)
     print(pid, 'm%s' % k, 'stored')
+
+if __name__ == '__main__':
+    if sys.argv[1] == 'confirm':
+        print(json.dumps(confirm(sys.argv[2], sys.argv[3]), indent=1))
+    elif sys.argv[1] == 'store':
+        store(sys.argv[2], sys.argv[3], sys.argv[4], sys.argv[5])
+    else:
+        run(sys.argv[2], sys.argv[3:])
+
